@@ -543,7 +543,7 @@ class RaggedArray(IndexableArray, np.lib.mixins.NDArrayOperatorsMixin):
             return self.ravel().cumsum(dtype=dtype)
         assert axis in (1, -1)
         if self.size == 0:
-            return np.empty_like(self)
+            return self.__class__(np.cumsum(self.ravel(), dtype=dtype), self._shape)  # numpy's result type, also without elements
         if np.issubdtype(self.dtype, np.integer):  # in (np.int8, np.int16, np.int32, np.int64):
             cm = np.cumsum(unsafe_extend_left(self.ravel()), dtype=dtype)
             offsets = cm[self._shape.starts]
